@@ -21,11 +21,13 @@ import (
 	"fmt"
 	"math"
 	"math/rand/v2"
+	"os"
 	"reflect"
-	"runtime"
+	"runtime/metrics"
 	"sort"
 	"strings"
 	"sync"
+	"sync/atomic"
 	"time"
 	"unicode/utf8"
 
@@ -37,8 +39,8 @@ import (
 // by a static limit (≤256 items of ≤2 KiB) or by the number of remaining input
 // bytes (≤8192 elements of ≤300 B), and stops at the first element it cannot
 // read, so correct code stays below ~5 MiB per call; the largest per-call
-// figure observed on the unchanged tree is in evidence (max_batch_alloc_bytes,
-// which is the sum over a batch of 64 calls).
+// figure observed on the unchanged tree is in evidence (max_call_alloc_bytes,
+// per call, including the harness' own witness strings).
 const AllocBound = 32 << 20
 
 // ---------------------------------------------------------------------------
@@ -640,14 +642,65 @@ func Violate(r *verifkit.Run, sig string, witness any) {
 
 var memMu sync.Mutex
 
-// allocOf returns the bytes allocated by fn (whole process; callers hold memMu
-// and run no other goroutines of their own).
-func allocOf(fn func()) uint64 {
-	var a, b runtime.MemStats
-	runtime.ReadMemStats(&a)
-	fn()
-	runtime.ReadMemStats(&b)
-	return b.TotalAlloc - a.TotalAlloc
+// heapAllocs returns the cumulative bytes allocated on the heap by the process
+// (runtime/metrics, no stop-the-world, so it is cheap enough to read around
+// every single decode call).  Per-P allocation caches make it lag by at most a
+// few hundred KiB, which is irrelevant against AllocBound.
+func heapAllocs() uint64 {
+	s := [1]metrics.Sample{{Name: "/gc/heap/allocs:bytes"}}
+	metrics.Read(s[:])
+	if s[0].Value.Kind() != metrics.KindUint64 {
+		return 0
+	}
+	return s[0].Value.Uint64()
+}
+
+// inFlight describes the decode call currently metered by the serial phase so
+// that the sampler can see a runaway allocation while the call is still running.
+type inFlightCall struct {
+	start uint64
+	codec string
+	phase string
+	in    []byte
+}
+
+var inFlight atomic.Pointer[inFlightCall]
+
+// startSampler watches the in-flight call of the serial phase.  A decode call
+// that has already allocated more than AllocBound is reported immediately —
+// the decision is the allocation counter, the ticker only paces the sampling —
+// and, because a Go call cannot be interrupted and a codec without an
+// allocation bound can keep a single call busy for hours, the fragment is
+// written and the process ends there.
+func startSampler(r *verifkit.Run) (stop func()) {
+	done := make(chan struct{})
+	go func() {
+		t := time.NewTicker(20 * time.Millisecond)
+		defer t.Stop()
+		for {
+			select {
+			case <-done:
+				return
+			case <-t.C:
+				c := inFlight.Load()
+				if c == nil {
+					continue
+				}
+				if d := heapAllocs() - c.start; d > 8*AllocBound {
+					Violate(r, "alloc-unbounded:"+c.codec, map[string]any{"phase": c.phase, "input_len": len(c.in), "alloc_bytes_so_far": d, "bound": AllocBound,
+						"in": hexCap(c.in, 320), "note": "call still running when sampled; run aborted after recording"})
+					r.Note("aborted_after_runaway_allocation", c.codec)
+					var sigs []string
+					seenSigs.Range(func(k, _ any) bool { sigs = append(sigs, k.(string)); return true })
+					sort.Strings(sigs)
+					r.Note("violation_signatures", sigs)
+					r.Finish()
+					os.Exit(3)
+				}
+			}
+		}
+	}()
+	return func() { close(done) }
 }
 
 // Drive runs every codec through all phases and reports to r.
@@ -679,6 +732,7 @@ func Drive(r *verifkit.Run, codecs []Codec, b Budget) {
 	func() {
 		memMu.Lock()
 		defer memMu.Unlock()
+		defer startSampler(r)()
 		for ci := range codecs {
 			if r.Skip(ci) {
 				continue
@@ -822,44 +876,40 @@ func driveCodec(r *verifkit.Run, ci int, c Codec, b Budget) {
 
 }
 
-// meter decodes ins under one allocation measurement; when the batch exceeds
-// AllocBound it re-runs the inputs one by one and reports the first single
-// call above the bound.  It returns false in that case.
+// meter decodes every input of ins with the heap allocation counter read
+// before and after the call and reports the first call that allocated more than
+// AllocBound.  It returns false in that case.
 func meter(r *verifkit.Run, c Codec, phase string, ins [][]byte) bool {
-	if len(ins) == 0 {
-		return true
-	}
-	d := allocOf(func() {
-		for _, in := range ins {
-			in := in
-			var err error
-			if r.Guard("decode-"+phase+":"+c.Name, map[string]any{"in": hexCap(in, 320)}, func() { err = c.Decode(in) }) {
-				continue
-			}
-			if err != nil {
-				r.Count(phase+".rejected."+c.Name, 1)
-			} else {
-				r.Count(phase+".decoded."+c.Name, 1)
-			}
-		}
-	})
-	r.Eval(len(ins))
-	r.Max("max_batch_alloc_bytes."+phase+"."+c.Name, int(d))
-	if d <= AllocBound {
-		return true
-	}
+	var maxOne uint64
+	ok := true
 	for _, in := range ins {
 		in := in
 		var err error
-		one := allocOf(func() {
-			r.Guard("decode-"+phase+":"+c.Name, nil, func() { err = c.Decode(in) })
-		})
+		a0 := heapAllocs()
+		inFlight.Store(&inFlightCall{start: a0, codec: c.Name, phase: phase, in: in})
+		panicked := r.Guard("decode-"+phase+":"+c.Name, map[string]any{"in": hexCap(in, 320)}, func() { err = c.Decode(in) })
+		inFlight.Store(nil)
+		one := heapAllocs() - a0
+		r.Eval(1)
+		if one > maxOne {
+			maxOne = one
+		}
 		if one > AllocBound {
 			Violate(r, "alloc-unbounded:"+c.Name, map[string]any{"phase": phase, "input_len": len(in), "alloc_bytes": one, "bound": AllocBound, "in": hexCap(in, 320), "decode_err": fmt.Sprint(err)})
-			return false
+			ok = false
+			break
+		}
+		switch {
+		case panicked:
+		case err != nil:
+			r.Count(phase+".rejected."+c.Name, 1)
+		default:
+			r.Count(phase+".decoded."+c.Name, 1)
 		}
 	}
-	return true
+	// the figure includes the harness' own witness strings (a few hundred bytes per call)
+	r.Max("max_call_alloc_bytes."+phase+"."+c.Name, int(maxOne))
+	return ok
 }
 
 // hostileCodec is the serial, allocation-metered part of a codec's run: the
